@@ -5,7 +5,6 @@
 From Coq Require Import Reals List Bool ZArith Lra Lia Psatz.
 From PyrexLib Require Import RealPrims PartPrims.
 From PyrexGen Require Import Gen_particle.
-From PyrexModel Require Import Secondaries.
 From PyrexProofs Require Import C14_real.
 Import ListNotations.
 Open Scope R_scope.
@@ -345,59 +344,71 @@ Proof.
     rewrite C2. reflexivity.
 Qed.
 
-(* ------------------------------------------------------------------ the secondaries (hand model) *)
+(* ------------------------------------------------------------------ the secondaries (generated) *)
+(* GQRS_choose_secondary_fractions is translated from _choose_secondary_fractions: the module-level
+   tables are the record `tabs` (arbitrary), numpy.random.poisson / rand are the streams ns / us. *)
 Definition bounded (le : R) (m : R * R) : Prop := 0 <= fst m <= le /\ 0 <= snd m <= le.
+Definition st_bounded (le : R) (st : R * R * list Z * list R) : Prop := bounded le (fst (fst st)).
 
-Lemma sample_y_unit r cum : in_unit (sample_y r cum).
-Proof. unfold sample_y. apply np_interp_last_unit. apply linspace01_unit. Qed.
+Lemma interp_unit r cum : in_unit (np_interp_last r cum (linspace01 (List.length cum))).
+Proof. apply np_interp_last_unit. apply linspace01_unit. Qed.
 
-Lemma store_bounded sh y le m : in_unit y -> 0 <= le -> bounded le m -> bounded le (store sh y le m).
+Ltac split_lets :=
+  repeat match goal with
+  | |- context [draw ?u] => destruct (draw u)
+  | |- context [draw_poisson ?l ?n] => destruct (draw_poisson l n)
+  end.
+Ltac split_ifs :=
+  repeat match goal with
+  | |- context [if ?c then _ else _] => destruct c
+  end.
+Ltac leaf le :=
+  unfold st_bounded, bounded in *; cbn [fst snd] in *;
+  repeat match goal with
+  | |- context [np_interp_last ?r ?c (linspace01 (List.length ?c))] =>
+      lazymatch goal with
+      | _ : in_unit (np_interp_last r c (linspace01 (List.length c))) |- _ => fail
+      | _ => pose proof (interp_unit r c)
+      end
+  end;
+  unfold in_unit in *; repeat split; nra.
+
+Lemma secondary_fractions_bounded self tabs le ei ns us :
+  0 <= le -> bounded le (GQRS_choose_secondary_fractions self tabs le ei ns us).
 Proof.
-  intros [Hy0 Hy1] Hle [Ha Hb]. unfold store. destruct m as [em had]. simpl in Ha, Hb.
-  assert (0 <= y * le <= le) by (split; nra).
-  destruct (Rgtb (y * le) (Rmax em had)); [|split; assumption].
-  destruct sh; unfold bounded; simpl; repeat split; lra.
-Qed.
-
-Lemma sec_loop_bounded n : forall nb ne nt b e p le us m,
-  0 <= le -> bounded le m -> bounded le (fst (sec_loop n nb ne nt b e p le us m)).
-Proof.
-  induction n as [|n IH]; intros nb ne nt b e p le us m Hle Hm; simpl. { assumption. }
-  destruct (draw us) as [r1 us1]. 
-  destruct (if Rltb r1 (IZR nb / IZR nt) then (EM, b) else if Rltb r1 (IZR (nb + ne) / IZR nt) then (EM, e) else (HAD, p)) as [sh cum].
-  destruct (draw us1) as [r2 us2]. apply IH; [assumption|].
-  apply store_bounded; [apply sample_y_unit|assumption|assumption].
-Qed.
-
-Lemma secondary_fractions_bounded T pid le ns us :
-  0 <= le -> bounded le (secondary_fractions T pid le ns us).
-Proof.
-  intros Hle. unfold secondary_fractions.
+  intros Hle. unfold GQRS_choose_secondary_fractions. cbv beta zeta.
   assert (H0 : bounded le (0, 0)) by (unfold bounded; simpl; lra).
   destruct (_ || _)%bool.
-  - apply sec_loop_bounded; assumption.
-  - destruct (_ || _)%bool; [|assumption].
-    match goal with |- context [sec_loop ?n ?a ?b ?c ?d ?e ?f ?g ?h ?i] =>
-      pose proof (sec_loop_bounded n a b c d e f g h i Hle H0) as HB;
-      destruct (sec_loop n a b c d e f g h i) as [m us1] end.
-    simpl in HB. destruct (draw us1) as [r1 us2].
-    destruct (if Rltb r1 0.65011 then _ else _) as [sh cum].
-    destruct (draw us2) as [r2 us3]. apply store_bounded; [apply sample_y_unit|assumption|assumption].
+  - split_lets.
+    match goal with |- context [for_range ?n ?body ?init] =>
+      assert (Hinv : st_bounded le (for_range n body init));
+        [apply for_range_inv; [|exact H0] | destruct (for_range n body init) as [[[em had] ns'] us']; exact Hinv]
+    end.
+    intros [[[em had] ns'] us'] HP. split_lets. split_ifs; leaf le.
+  - destruct (_ || _)%bool; [|exact H0].
+    split_lets.
+    match goal with |- context [for_range ?n ?body ?init] =>
+      assert (Hinv : st_bounded le (for_range n body init));
+        [apply for_range_inv; [|exact H0] | destruct (for_range n body init) as [[[em had] ns'] us'] ]
+    end.
+    + intros [[[em had] ns'] us'] HP. split_lets. split_ifs; leaf le.
+    + split_lets. split_ifs; leaf le.
 Qed.
 
-Lemma secondary_fractions_electron T pid le ns us :
-  electron_flavour pid -> secondary_fractions T pid le ns us = (0, 0).
-Proof. intros [H|H]; subst; reflexivity. Qed.
+Lemma secondary_fractions_electron self tabs le ei ns us :
+  electron_flavour (Inter_pid self) -> GQRS_choose_secondary_fractions self tabs le ei ns us = (0, 0).
+Proof. destruct self as [k p E y inc]. simpl. intros [H|H]; subst; reflexivity. Qed.
 
-(* the i-th call of _choose_secondary_fractions: arbitrary tables (rows per energy index) and
-   arbitrary Poisson / uniform streams per call *)
-Definition model_sec (rows : Z -> sec_rows) (pid : Z) (ns : nat -> list Z) (us : nat -> list R)
+(* the i-th call of _choose_secondary_fractions: arbitrary tables and arbitrary Poisson / uniform
+   streams per call *)
+Definition model_sec (f : Inter -> SecTables -> R -> Z -> list Z -> list R -> R * R)
+           (s : Inter) (tabs : SecTables) (ns : nat -> list Z) (us : nat -> list R)
   : nat -> R -> Z -> R * R :=
-  fun it le ei => secondary_fractions (rows ei) pid le (ns it) (us it).
+  fun it le ei => f s tabs le ei (ns it) (us it).
 
-Lemma fractions_lemma s rows ns us :
+Lemma fractions_lemma s tabs ns us :
   cc_or_nc (Inter_kind s) -> neutrino (Inter_pid s) -> 0 < Inter_energy s -> 0 <= Inter_inelasticity s <= 1 ->
-  match shower_spec s (model_sec rows (Inter_pid s) ns us) with
+  match shower_spec s (model_sec GQRS_choose_secondary_fractions s tabs ns us) with
   | None => False
   | Some None => Inter_kind s = 1%Z /\ ~ electron_flavour (Inter_pid s) /\ Inter_include_secondaries s = true
   | Some (Some (em, had)) =>
@@ -408,9 +419,13 @@ Lemma fractions_lemma s rows ns us :
 Proof.
   intros Hk Hp HE Hy. apply shower_spec_ok; try assumption.
   - intros i le e Hle. unfold model_sec.
-    destruct (secondary_fractions_bounded (rows e) (Inter_pid s) le (ns i) (us i) Hle) as [[A _] [B _]]. split; assumption.
+    destruct (secondary_fractions_bounded s tabs le e (ns i) (us i) Hle) as [[A _] [B _]]. split; assumption.
   - intros El i le e. unfold model_sec. apply secondary_fractions_electron. assumption.
 Qed.
+
+(* CTWInteraction inherits the method unchanged *)
+Lemma ctw_secondaries_inherited : CTW_choose_secondary_fractions = GQRS_choose_secondary_fractions.
+Proof. reflexivity. Qed.
 
 (* non-vacuity: concrete valid records *)
 Example ex_inter : exists s, cc_or_nc (Inter_kind s) /\ neutrino (Inter_pid s) /\ 10 ^ 3 <= Inter_energy s <= 10 ^ 12 /\
